@@ -1,6 +1,7 @@
 package props
 
 import (
+	"os"
 	configapi "github.com/onosproject/onos-api/go/onos/config/v2"
 	"fmt"
 	"strings"
@@ -54,14 +55,17 @@ func s2RunSteps(c *fw.Case, prop string, p *engine.Profile, steps []engine.Step)
 			}
 		})
 	}
-	if p.PStoreFault > 0 {
+	if p.PStoreFault > 0 || p.PCreateFault > 0 {
 		fr := c.Rng.Fork("storefault")
 		var fmu sync.Mutex
 		w.SetStoreFault(func(kind string) error {
 			fmu.Lock()
 			defer fmu.Unlock()
-			if fr.Intn(1000) < p.PStoreFault {
+			if fr.Intn(1000) < p.PStoreFault || (kind == "prop.Create" && fr.Intn(100) < p.PCreateFault) {
 				c.Count("store_faults_injected", 1)
+				if kind == "prop.Create" {
+					c.Count("proposal_create_faults_injected", 1)
+				}
 				return liberrors.NewUnavailable("injected transient store fault at " + kind)
 			}
 			return nil
@@ -163,6 +167,9 @@ func s2Report(c *fw.Case, prop string, e *engine.Exec, j *engine.Judgement) {
 	c.Distinct("schedule", scheduleFingerprint(e))
 	if c.Index%40 == 0 || len(j.Findings) > 0 {
 		c.Sample(map[string]interface{}{"script": e.Script, "final_state": strings.Split(engine.StateString(j.State), ";"), "goal_reached": e.GoalReached})
+	}
+	if os.Getenv("VERIF_DUMP") != "" {
+		dumpWorld(c, e) // development aid: keep the event trace of every case
 	}
 	for _, f := range j.Findings {
 		for _, p := range f.Props {
